@@ -196,6 +196,8 @@ structure Identity (id key : Nat) (s : St β) : Prop where
   uuid : s.store.uuid = some id
   dev : lookup id s.store.entities = some ⟨id, key, some key⟩
   nodup : (names s.store.entities).Nodup
+  /-- only the accessory's own entity holds a private key -/
+  others : ∀ n, n ≠ id → ownEntity n s.store.entities = false
   run : ∀ r, s.run = some r → r.id = id ∧ r.devPub = key ∧ r.devPriv = some key ∧
           r.discoverable = (controllers id s.store.entities).isEmpty
 
@@ -245,58 +247,96 @@ theorem start_identity {id key : Nat} {s : St β} (hi : Identity id key s) (c : 
   rw [paired_iff id s.store.entities _ hi.nodup hi.dev]
   simp
 
-theorem step_identity {id key : Nat} {s : St β} (hi : Identity id key s) (st : Step) (hne : st.name? ≠ some id) :
+theorem ownEntity_id {id key : Nat} {s : St β} (hi : Identity id key s) : ownEntity id s.store.entities = true := by
+  simp [ownEntity, hi.dev]
+
+theorem ownEntity_upsert_none (n m k : Nat) (es : List Entity) :
+    ownEntity m (upsert ⟨n, k, none⟩ es) = if m = n then false else ownEntity m es := by
+  unfold ownEntity
+  by_cases h : m = n
+  · subst h
+    have := lookup_upsert_self ⟨m, k, none⟩ es
+    simp only at this
+    simp [this]
+  · have := lookup_upsert_ne ⟨n, k, none⟩ m es (fun e : n = m => h e.symm)
+    simp [h, this]
+
+theorem ownEntity_remove (n m : Nat) (es : List Entity) :
+    ownEntity m (remove n es) = if m = n then false else ownEntity m es := by
+  unfold ownEntity
+  by_cases h : m = n
+  · subst h; simp [lookup_remove_self]
+  · simp [h, lookup_remove_ne n m es (fun e : n = m => h e.symm)]
+
+/-- every step preserves the identity — also a pairing or a removal under the accessory's own id, which is refused -/
+theorem step_identity {id key : Nat} {s : St β} (hi : Identity id key s) (st : Step) :
     Identity id key (step H s st).1 := by
   cases st with
   | start c =>
     simp only [step]
     by_cases ha : c.accepted = true
     · rw [start_identity H hi c ha]
-      exact ⟨rfl, hi.dev, hi.nodup, fun r hr => by cases hr; exact ⟨rfl, rfl, rfl, rfl⟩⟩
+      exact ⟨rfl, hi.dev, hi.nodup, hi.others, fun r hr => by cases hr; exact ⟨rfl, rfl, rfl, rfl⟩⟩
     · rw [start_rejected H s c (by simpa using ha)]; exact hi
   | pair n k =>
-    have hn : n ≠ id := fun e => hne (by simp [Step.name?, e])
-    have hd : lookup id (upsert ⟨n, k, none⟩ s.store.entities) = some ⟨id, key, some key⟩ := by
-      rw [lookup_upsert_ne _ _ _ hn]; exact hi.dev
-    have hnd := nodup_names_upsert ⟨n, k, none⟩ s.store.entities hi.nodup
-    refine ⟨hi.uuid, hd, hnd, ?_⟩
-    intro r hr
-    simp only [step, refresh, Option.map_eq_some_iff] at hr
-    obtain ⟨r0, hr0, rfl⟩ := hr
-    obtain ⟨h1, h2, h3, _⟩ := hi.run r0 hr0
-    refine ⟨h1, h2, h3, ?_⟩
-    simp only [step]
-    rw [paired_iff id _ _ hnd hd]; simp
+    by_cases ho : ownEntity n s.store.entities = true
+    · simp only [step, ho, if_true]; exact hi
+    · have hn : n ≠ id := fun e => ho (e ▸ ownEntity_id hi)
+      have hd : lookup id (upsert ⟨n, k, none⟩ s.store.entities) = some ⟨id, key, some key⟩ := by
+        rw [lookup_upsert_ne _ _ _ hn]; exact hi.dev
+      have hnd := nodup_names_upsert ⟨n, k, none⟩ s.store.entities hi.nodup
+      simp only [step, ho, if_false, Bool.false_eq_true]
+      refine ⟨hi.uuid, hd, hnd, ?_, ?_⟩
+      · intro m hm
+        show ownEntity m (upsert ⟨n, k, none⟩ s.store.entities) = false
+        rw [ownEntity_upsert_none]; split
+        · rfl
+        · exact hi.others m hm
+      · intro r hr
+        simp only [refresh, Option.map_eq_some_iff] at hr
+        obtain ⟨r0, hr0, rfl⟩ := hr
+        obtain ⟨h1, h2, h3, _⟩ := hi.run r0 hr0
+        refine ⟨h1, h2, h3, ?_⟩
+        show (!paired (upsert ⟨n, k, none⟩ s.store.entities)) = _
+        rw [paired_iff id _ _ hnd hd]; simp
   | unpair n =>
-    have hn : n ≠ id := fun e => hne (by simp [Step.name?, e])
-    have hd : lookup id (remove n s.store.entities) = some ⟨id, key, some key⟩ := by
-      rw [lookup_remove_ne _ _ _ hn]; exact hi.dev
-    have hnd := nodup_names_remove n s.store.entities hi.nodup
-    refine ⟨hi.uuid, hd, hnd, ?_⟩
-    intro r hr
-    simp only [step, refresh, Option.map_eq_some_iff] at hr
-    obtain ⟨r0, hr0, rfl⟩ := hr
-    obtain ⟨h1, h2, h3, _⟩ := hi.run r0 hr0
-    refine ⟨h1, h2, h3, ?_⟩
-    simp only [step]
-    rw [paired_iff id _ _ hnd hd]; simp
+    by_cases ho : ownEntity n s.store.entities = true
+    · simp only [step, ho, if_true]; exact hi
+    · have hn : n ≠ id := fun e => ho (e ▸ ownEntity_id hi)
+      have hd : lookup id (remove n s.store.entities) = some ⟨id, key, some key⟩ := by
+        rw [lookup_remove_ne _ _ _ hn]; exact hi.dev
+      have hnd := nodup_names_remove n s.store.entities hi.nodup
+      simp only [step, ho, if_false, Bool.false_eq_true]
+      refine ⟨hi.uuid, hd, hnd, ?_, ?_⟩
+      · intro m hm
+        show ownEntity m (remove n s.store.entities) = false
+        rw [ownEntity_remove]; split
+        · rfl
+        · exact hi.others m hm
+      · intro r hr
+        simp only [refresh, Option.map_eq_some_iff] at hr
+        obtain ⟨r0, hr0, rfl⟩ := hr
+        obtain ⟨h1, h2, h3, _⟩ := hi.run r0 hr0
+        refine ⟨h1, h2, h3, ?_⟩
+        show (!paired (remove n s.store.entities)) = _
+        rw [paired_iff id _ _ hnd hd]; simp
   | setValue p v =>
-    refine ⟨hi.uuid, hi.dev, hi.nodup, ?_⟩
+    refine ⟨hi.uuid, hi.dev, hi.nodup, hi.others, ?_⟩
     intro r hr
     simp only [step, Option.map_eq_some_iff] at hr
     obtain ⟨r0, hr0, rfl⟩ := hr
     exact hi.run r0 hr0
   | stop =>
-    exact ⟨hi.uuid, hi.dev, hi.nodup, fun r hr => by simp [step] at hr⟩
-  | wipe k => cases k <;> exact ⟨hi.uuid, hi.dev, hi.nodup, hi.run⟩
+    exact ⟨hi.uuid, hi.dev, hi.nodup, hi.others, fun r hr => by simp [step] at hr⟩
+  | wipe k => cases k <;> exact ⟨hi.uuid, hi.dev, hi.nodup, hi.others, hi.run⟩
 
-theorem run_identity {id key : Nat} {s : St β} (hi : Identity id key s) (hist : List Step)
-    (hne : ∀ st ∈ hist, st.name? ≠ some id) : Identity id key (run H s hist) := by
+theorem run_identity {id key : Nat} {s : St β} (hi : Identity id key s) (hist : List Step) :
+    Identity id key (run H s hist) := by
   induction hist generalizing s with
   | nil => exact hi
   | cons x xs ih =>
     simp only [run]
-    exact ih (step_identity H hi x (hne x (by simp))) (fun st hst => hne st (by simp [hst]))
+    exact ih (step_identity H hi x)
 
 theorem run_append (s : St β) (a b : List Step) : run H s (a ++ b) = run H (run H s a) b := by
   induction a generalizing s with
@@ -304,13 +344,13 @@ theorem run_append (s : St β) (a b : List Step) : run H s (a ++ b) = run H (run
   | cons x xs ih => simp only [List.cons_append, run, ih]
 
 /-- what a history does to the controller pairings: pair = save, unpair = delete, nothing else touches them -/
-def ctlOp (es : List Entity) : Step → List Entity
-  | .pair n k => upsert ⟨n, k, none⟩ es
-  | .unpair n => remove n es
+def ctlOp (id : Nat) (es : List Entity) : Step → List Entity
+  | .pair n k => if n = id then es else upsert ⟨n, k, none⟩ es     -- refused under the accessory's own id (F16 repair)
+  | .unpair n => if n = id then es else remove n es
   | _ => es
 
-theorem step_controllers {id key : Nat} {s : St β} (hi : Identity id key s) (st : Step) (hne : st.name? ≠ some id) :
-    controllers id (step H s st).1.store.entities = ctlOp (controllers id s.store.entities) st := by
+theorem step_controllers {id key : Nat} {s : St β} (hi : Identity id key s) (st : Step) :
+    controllers id (step H s st).1.store.entities = ctlOp id (controllers id s.store.entities) st := by
   cases st with
   | start c =>
     simp only [step, ctlOp]
@@ -318,22 +358,26 @@ theorem step_controllers {id key : Nat} {s : St β} (hi : Identity id key s) (st
     · rw [start_identity H hi c ha]
     · rw [start_rejected H s c (by simpa using ha)]
   | pair n k =>
-    have hn : n ≠ id := fun e => hne (by simp [Step.name?, e])
-    simp only [step, ctlOp]; exact controllers_upsert id _ _ hn
-  | unpair n => simp only [step, ctlOp]; exact controllers_remove id n _
+    by_cases hn : n = id
+    · subst hn; simp [step, ctlOp, ownEntity_id hi]
+    · simp only [step, ctlOp, hi.others n hn, hn, if_false, Bool.false_eq_true]
+      exact controllers_upsert id _ _ hn
+  | unpair n =>
+    by_cases hn : n = id
+    · subst hn; simp [step, ctlOp, ownEntity_id hi]
+    · simp only [step, ctlOp, hi.others n hn, hn, if_false, Bool.false_eq_true]
+      exact controllers_remove id n _
   | setValue p v => rfl
   | stop => rfl
   | wipe k => cases k <;> rfl
 
-theorem run_controllers {id key : Nat} {s : St β} (hi : Identity id key s) (hist : List Step)
-    (hne : ∀ st ∈ hist, st.name? ≠ some id) :
-    controllers id (run H s hist).store.entities = hist.foldl ctlOp (controllers id s.store.entities) := by
+theorem run_controllers {id key : Nat} {s : St β} (hi : Identity id key s) (hist : List Step) :
+    controllers id (run H s hist).store.entities = hist.foldl (ctlOp id) (controllers id s.store.entities) := by
   induction hist generalizing s with
   | nil => rfl
   | cons x xs ih =>
     simp only [run, List.foldl_cons]
-    rw [ih (step_identity H hi x (hne x (by simp))) (fun st hst => hne st (by simp [hst])),
-      step_controllers H hi x (hne x (by simp))]
+    rw [ih (step_identity H hi x), step_controllers H hi x]
 
 /-- what a history does to (stored content hash, stored configuration number): only an accepted start (or the loss of a file) touches them -/
 def cfgOp (st : Option β × Nat) : Step → Option β × Nat
@@ -351,8 +395,8 @@ theorem step_cfg (s : St β) (st : Step) : cfgOf (step H s st).1 = cfgOp H (cfgO
     by_cases ha : c.accepted = true
     · rw [start_accepted H s c ha]; simp [cfgOf, ha]
     · rw [start_rejected H s c (by simpa using ha)]; simp [ha]
-  | pair n k => rfl
-  | unpair n => rfl
+  | pair n k => simp only [step]; split <;> rfl
+  | unpair n => simp only [step]; split <;> rfl
   | setValue p v => rfl
   | stop => rfl
   | wipe k => cases k <;> rfl
